@@ -31,6 +31,56 @@ CLAIMED = {
         note="trusted: Lean kernel (+ propext); revm's gas accounting is a parameter (gasUsed <= gasLimit and monotonicity are assumptions stated in the theorems, exercised but not proved)",
         technique="Lean 4 proof (loop invariant + halving measure for the bisection, arithmetic) + differential correspondence + recorded-probe check",
         ref="DESIGN.md §6 C16"),
+    "C01": dict(
+        text="Lean: acceptance rule as an iff, refused = untouched, an accepted reorg never panics and every table reads the value each key had at the end of the target block (via the table refinement of C13), block rows above the target gone, simulation kept with logs truncated (so later executions continue from that state); tie: the Lean engine model reproduces the real engine's full state digest (12 versioned tables x 3 columns, block tables, heights, block under construction) after every op of random histories, and at every accepted reorg the real instance is compared with a fresh instance replayed up to the target and kept in lockstep afterwards",
+        note='trusted: Lean kernel (+ propext, Classical.choice, Quot.sound); revm, hashes and RocksDB as parameters; the hooks (EVM recorder, table-write events, state probe) and the harness; see DESIGN.md §3',
+        technique='Lean 4 proof (per-table forward simulation lifted to the 12-table node) + state-digest correspondence + fresh-replay twin',
+        ref="DESIGN.md §6 C01"),
+    "C02": dict(
+        text='Lean: all consensus constants and addresses pinned for protocol version 2 by decide over the regenerated table; scans independent of hash-map order; tie: twin instances (different hash seeds, commit/restart schedules) must give identical responses and observations; pinned observation digests of a fixed corpus',
+        note='trusted: Lean kernel (+ propext, Classical.choice, Quot.sound); revm, hashes and RocksDB as parameters; the hooks (EVM recorder, table-write events, state probe) and the harness; see DESIGN.md §3',
+        technique='Lean 4 proof (decide over regenerated constants, order-independence of scans) + replica twins + golden digests',
+        ref="DESIGN.md §6 C02"),
+    "C03": dict(
+        text='Lean: commit changes no table read, no block read, no height, keeps the simulation; commit+reopen likewise; clear/reopen = durable logs of the last commit; tie: engine-model state-digest correspondence incl. on-disk columns; twin with a different commit/restart schedule; after clearCaches/reopen the instance is compared with a fresh replay of the committed prefix',
+        note='trusted: Lean kernel (+ propext, Classical.choice, Quot.sound); revm, hashes and RocksDB as parameters; the hooks (EVM recorder, table-write events, state probe) and the harness; see DESIGN.md §3',
+        technique='Lean 4 proof (simulation preserved by commit/clear) + schedule twins',
+        ref="DESIGN.md §6 C03"),
+    "C05": dict(
+        text='Lean: every error response of add-tx / transact / finalise / commit / reorg / initialise(genesis,height) / mine(mid-block) returns the node unchanged; each protocol rule (index, timestamp, hash, count, existing block, mid-block commit/reorg) is refused; tie: model predicts the response class of every call incl. injected violations; the real state digest must be unchanged after every error response',
+        note='trusted: Lean kernel (+ propext, Classical.choice, Quot.sound); revm, hashes and RocksDB as parameters; the hooks (EVM recorder, table-write events, state probe) and the harness; see DESIGN.md §3',
+        technique='Lean 4 proof (case analysis of the engine model) + response-class correspondence + before/after digests',
+        ref="DESIGN.md §6 C05"),
+    "C06": dict(
+        text='Lean: accepted finalise creates exactly the next height with hash row, block rows, inverse index; counts exact; indexes consecutive; log index and cumulative gas are running sums; tie: coherence oracle over the real chain at every block boundary (parent hashes, hash<->number, tx/receipt/(block,index)/inscription lookups, log indexes, cumulative gas, receipts returned = receipts served)',
+        note='trusted: Lean kernel (+ propext, Classical.choice, Quot.sound); revm, hashes and RocksDB as parameters; the hooks (EVM recorder, table-write events, state probe) and the harness; see DESIGN.md §3',
+        technique='Lean 4 proof (model invariants) + coherence oracle on the real code',
+        ref="DESIGN.md §6 C06"),
+    "C08": dict(
+        text='Lean: undecodable rejected, stale/far-future/wrong-chain untouched, parked leaves the block untouched, execution only at the account nonce, appended = 1 + live waiting successors (window edge exact), drain bounded; tie: the model predicts parking/execution/drain counts from its own pending table and must reproduce the state digest; reference pool in the generator predicts the receipt count of every brc20_transact',
+        note='trusted: Lean kernel (+ propext, Classical.choice, Quot.sound); revm, hashes and RocksDB as parameters; the hooks (EVM recorder, table-write events, state probe) and the harness; see DESIGN.md §3',
+        technique='Lean 4 proof (classification + drain plan) + reference pool + correspondence',
+        ref="DESIGN.md §6 C08"),
+    "C10": dict(
+        text='Lean: a read step returns the node it was given and is answered ok only if no table write / persistent write / committing run / DatabaseCommit entry was recorded; reads are removable from any history; tie: every read (incl. eth_call / estimate running state-changing code) is checked on the real code: recorded events, state digest before/after, and a twin that never sees the reads',
+        note='trusted: Lean kernel (+ propext, Classical.choice, Quot.sound); revm, hashes and RocksDB as parameters; the hooks (EVM recorder, table-write events, state probe) and the harness; see DESIGN.md §3',
+        technique='Lean 4 proof (identity of the read step) + event recorder + read-free twin',
+        ref="DESIGN.md §6 C10"),
+    "C17": dict(
+        text="Lean: the recorded simulation environment and the next transaction's environment agree on number, fees, value, coinbase; the simulation uses the caller's account nonce; tie: model checks every recorded simulation environment; on the real code each deploy/call at a block boundary is preceded by an eth_call whose status/output (runtime code for creations) must equal the transaction's",
+        note='trusted: Lean kernel (+ propext, Classical.choice, Quot.sound); revm, hashes and RocksDB as parameters; the hooks (EVM recorder, table-write events, state probe) and the harness; see DESIGN.md §3',
+        technique='Lean 4 proof (environment agreement) + eth_call/transaction pairing oracle',
+        ref="DESIGN.md §6 C17"),
+    "C18": dict(
+        text='Lean: result = in-range logs filtered (sublist, exact membership), range rule as an iff under heights < 2^63, defaults, positional filter semantics (wildcard, equality, any-of, beyond-topics fails); tie: eth_getLogs with random address/topic filters and ranges (reversed, too wide, single) compared with a reference filter over the receipts, finalised or in the block under construction',
+        note='trusted: Lean kernel (+ propext, Classical.choice, Quot.sound); revm, hashes and RocksDB as parameters; the hooks (EVM recorder, table-write events, state probe) and the harness; see DESIGN.md §3',
+        technique='Lean 4 proof (filter semantics, range arithmetic) + reference filter oracle',
+        ref="DESIGN.md §6 C18"),
+    "C19": dict(
+        text="Lean: an accepted call's runs all saw number = height being built, supplied timestamp, supplied/generated hash as randomness, zero fees, and the first run the supplied txid; tie: the model refuses recorded environments that differ; a probe contract stores NUMBER..BLOCKHASH and the 0xfa txid, read back through eth_getStorageAt and compared with what was sent",
+        note='trusted: Lean kernel (+ propext, Classical.choice, Quot.sound); revm, hashes and RocksDB as parameters; the hooks (EVM recorder, table-write events, state probe) and the harness; see DESIGN.md §3',
+        technique='Lean 4 proof (environment check) + context probe contract',
+        ref="DESIGN.md §6 C19"),
 }
 PENDING_REASON = "not claimed yet in this commit: model and theorems for this property are still being built (see DESIGN.md §10 order of work)"
 
@@ -40,7 +90,7 @@ m = {
     "hooks": {"guard": "cargo feature verif-hooks",
               "enable": "the harness crate /verif/harness depends on brc20-prog = { path = \"/repo\", features = [\"verif-hooks\"] }; `cargo build --offline` in /verif/harness rebuilds /repo's working tree with the hooks on",
               "baseline_off_cmd": "cd /repo && cargo test --workspace --no-fail-fast --offline",
-              "source_commits": ["cefa175"], "add_only": True},
+              "source_commits": ["cefa175", "f6b9057"], "add_only": True},
     "engines": [{"name": "lean-proof+correspondence", "path": "/verif/check", "serves_properties": sorted(CLAIMED),
                  "kind_free_text": "Lean 4 theorems over an executable model (lean/Brc20), facts regenerated from the source on every run (tools/gen_*.py -> lean/Brc20/Gen), and a differential correspondence check between the compiled model driver and the real code driven in-process by /verif/harness"}],
     "checks": [], "notes": "see DESIGN.md; known findings in known_findings.json; seeded changes in seeded/", "not_applicable": []}
